@@ -109,6 +109,8 @@ class SmallBufferAllocator {
     auto& globals = getSmallBufferGlobals<kChunkSize>();
     auto& lock = globals.backingStoreLock;
     while (!lock.compare_exchange_weak(allocId, 1, std::memory_order_acquire)) {
+      // A failed exchange stores the observed value in allocId; the lock may only be taken from 0.
+      allocId = 0;
     }
     size_t bytes = kMallocBytes * globals.backingStore.size();
     lock.store(0, std::memory_order_release);
